@@ -93,7 +93,7 @@ impl IndicatorConfig for TrendStrengthIndex {
 			&& self.zone >= 0.0
 			&& self.zone < 1.0
 			&& self.reverse_offset > 0
-			&& self.reverse_offset <= self.period
+			&& self.reverse_offset < self.period
 	}
 
 	fn set(&mut self, name: &str, value: String) -> Result<(), Error> {
